@@ -462,7 +462,7 @@ func drive(id, tier string) int {
 			case r.inflight != "" && deadlock:
 				viols = append(viols, mk(mon.Violation{Property: id, Sig: "deadlock", Case: r.inflight,
 					Msg: "Go runtime deadlock detector fired inside a monitored call", Detail: map[string]string{"stdio": r.stdio}, Config: childParams(r.spec, len(r.cpus))}))
-			case r.inflight != "" && r.timedOut && ck.HangIsViolation:
+			case r.inflight != "" && r.timedOut && (ck.HangIsViolation || r.exit == 3):
 				viols = append(viols, mk(mon.Violation{Property: id, Sig: "hang", Case: r.inflight,
 					Msg: "watchdog fired while a monitored call was in flight (bounded-progress violation)", Detail: map[string]string{"stdio": r.stdio}, Config: childParams(r.spec, len(r.cpus))}))
 			case r.inflight != "" && !r.timedOut:
